@@ -276,7 +276,7 @@ func (x *executor) rawFamilyUnit() {
 		x.caseID++
 		x.mark.set(x.caseID, rawTypeName, "raw splitters", class, in)
 		x.res.Counters["raw_inputs:"+class]++
-		x.rawChecks(in, class, 2*time.Second, true)
+		x.rawChecks(in, class, 20*time.Second, true)
 	}
 	headerFamily(func(in []byte) { run("header-boundary", in) })
 	shortStrings(func(in []byte) { run("short", in) })
